@@ -34,6 +34,9 @@ def letters_for(cfg):
         L['invalid'] = (['garbage'], [])
         L['connect-refused'] = ([], ['refused'] * (R + 1))
         L['valid+fin'] = (['valid+fin'], [])
+    L['caller-cancels@.5T'] = 'cancel', 0.5 * cfg['T']
+    if R:
+        L['caller-cancels@1.5T'] = 'cancel', 1.5 * cfg['T']
     L['idle.3T'] = 'idle', 0.3 * cfg['T']
     L['idle2T'] = 'idle', 2 * cfg['T']
     L['NEWLOOP'] = 'newloop', None
@@ -52,6 +55,9 @@ def apply(s: Session, L, name):
         s.newloop_open()
     elif a == 'close':
         s.close()
+    elif a == 'cancel':
+        s.request_cancelled(['drop'] * (s.cfg['R'] + 2), b)
+        s.drain()
     else:
         o = s.request(a, b)
         s.drain()  # answers still in flight belong to this request, not to the silent probe
